@@ -2,6 +2,7 @@
    Only statements, [exact] and [Print Assumptions] live here. *)
 From Coq Require Import List ZArith Reals.
 From SR Require Import Model.CombatCore Model.Heal Proofs.CombatFacts Proofs.HealProofs.
+From SR Require Proofs.FormulasHealProofs.
 Import ListNotations.
 
 Theorem C17_heals : C17_statement.
@@ -29,6 +30,15 @@ Theorem C17_no_overheal_any_history :
   forall ops w, no_overheal w (fst (hrun FloatNum w ops)).
 Proof. exact hrun_no_overheal. Qed.
 Print Assumptions C17_no_overheal_any_history.
+
+(* The translator tie: the heal amount, its split into applied and overflow, the stats it reads and
+   the HP update are, for every NumOps instance and every argument, EQUAL to the definitions go2coq
+   generates from combat/heal.go, info/stats.go, info/map.go and attribute/modify.go
+   (Gen/FormulasHeal.v, Gen/FormulasInfo.v, Gen/FormulasAttr.v; the conjunction is spelled out in
+   Proofs/FormulasHealProofs.v, C17_formulas_statement). *)
+Theorem C17_model_formulas_are_the_source : FormulasHealProofs.C17_formulas_statement.
+Proof. exact FormulasHealProofs.C17_formulas_hold. Qed.
+Print Assumptions C17_model_formulas_are_the_source.
 
 Theorem C17_nonvacuous : demo_statement.
 Proof. exact demo_heal. Qed.
